@@ -110,6 +110,50 @@ theorem rnd_absorbs {p : Nat} {g e : Rat} (hg : OnGrid p g)
     rw [add_mul, div_mul_cancel₀ _ (pow10_ne_zero p)]
   rw [this, roundHA_absorbs k h1 h2]
 
+/-- `math.Round` is a NEAREST integer: never further than one half -/
+theorem roundHA_nearest (x : Rat) : -(1/2) ≤ (roundHA x : Rat) - x ∧ (roundHA x : Rat) - x ≤ 1/2 := by
+  unfold roundHA
+  split
+  · have h1 : ((⌊x + 1/2⌋ : Int) : ℚ) ≤ x + 1/2 := Int.floor_le _
+    have h2 : x + 1/2 < ((⌊x + 1/2⌋ : Int) : ℚ) + 1 := Int.lt_floor_add_one _
+    show -(1/2) ≤ ((⌊x + 1/2⌋ : Int) : ℚ) - x ∧ ((⌊x + 1/2⌋ : Int) : ℚ) - x ≤ 1/2
+    constructor <;> linarith
+  · have h1 : ((⌊-x + 1/2⌋ : Int) : ℚ) ≤ -x + 1/2 := Int.floor_le _
+    have h2 : -x + 1/2 < ((⌊-x + 1/2⌋ : Int) : ℚ) + 1 := Int.lt_floor_add_one _
+    show -(1/2) ≤ ((-(⌊-x + 1/2⌋ : Int) : Int) : ℚ) - x ∧ ((-(⌊-x + 1/2⌋ : Int) : Int) : ℚ) - x ≤ 1/2
+    push_cast
+    constructor <;> linarith
+
+/-- **`RoundFloat` is a nearest grid point**: the rounded value is never further than half a grid unit from the value -/
+theorem rnd_nearest (p : Nat) (x : Rat) :
+    -(1/2) ≤ (rnd p x - x) * (10^p : Nat) ∧ (rnd p x - x) * (10^p : Nat) ≤ 1/2 := by
+  have h := roundHA_nearest (x * (10^p : Nat))
+  have e : (rnd p x - x) * (10^p : Nat) = (roundHA (x * (10^p : Nat)) : Rat) - x * (10^p : Nat) := by
+    unfold rnd
+    rw [sub_mul, div_mul_cancel₀ _ (pow10_ne_zero p)]
+  rw [e]
+  exact h
+
+/-- … and among the (at most two) nearest grid points of a tie it is the one AWAY from zero: a value exactly half way
+between two grid points, `(k + 1/2)/10^p` with `k ≥ 0`, goes up to `(k+1)/10^p`; its mirror image goes down -/
+theorem rnd_tie_away (p : Nat) (k : Nat) :
+    rnd p ((((k : Int) : Rat) + 1/2) / (10^p : Nat)) = (((k : Int) + 1 : Int) : Rat) / (10^p : Nat) ∧
+    rnd p (-((((k : Int) : Rat) + 1/2) / (10^p : Nat))) = -((((k : Int) + 1 : Int) : Rat) / (10^p : Nat)) := by
+  have h1 : rnd p ((((k : Int) : Rat) + 1/2) / (10^p : Nat)) = (((k : Int) + 1 : Int) : Rat) / (10^p : Nat) := by
+    unfold rnd
+    rw [div_mul_cancel₀ _ (pow10_ne_zero p)]
+    congr 1
+    unfold roundHA
+    have hk : (0 : Rat) ≤ ((k : Int) : Rat) + 1/2 := by positivity
+    rw [if_pos hk]
+    have : ⌊(((k : Int) : ℚ) + 1/2 + 1/2)⌋ = (k : Int) + 1 := by
+      rw [Int.floor_eq_iff]
+      push_cast
+      constructor <;> linarith
+    exact_mod_cast this
+  refine ⟨h1, ?_⟩
+  rw [rnd_neg, h1]
+
 /-- the integer order key of an on-grid value (`value · 10^p`, floored) reads back as the value -/
 theorem floor_key_of_onGrid {p : Nat} {x : Rat} (h : OnGrid p x) :
     (((x * (10^p : Nat)).floor : Int) : Rat) / (10^p : Nat) = x := by
